@@ -357,7 +357,16 @@ func (p *c11) Describe(i int) interface{} {
 
 func (p *c11) Run(i int) (res fw.Result) {
 	prog, sig := p.build(i)
-	lib, mod, ok := modelCase(&res, "c11:"+sig+fmt.Sprintf("#%d", i), prog, gen.Canon{}, true)
+	// every third case is written with a line break between any two tokens (m ( 'a' , 2 )), every third without
+	// any blank that can be left out: a call is a call however it is laid out
+	var pol gen.Policy = gen.Canon{}
+	switch i % 3 {
+	case 1:
+		pol = gen.Wide{}
+	case 2:
+		pol = gen.Tight{}
+	}
+	lib, mod, ok := modelCase(&res, "c11:"+sig+fmt.Sprintf("#%d", i), prog, pol, true)
 	if !ok {
 		res.Fail("harness", "c11:oor:"+sig, "case left the model's region", prog.describe())
 		return
@@ -387,11 +396,11 @@ func (p *c11) Run(i int) (res fw.Result) {
 }
 
 func (p *c11) Rule() string {
-	return "exhaustive: parameters 0..4 x arguments 0..6 x call form {_self.m, alias.m, from-import m, from-import m as n, from-import m under the name of a registered function} x use of the result {printed, assigned and printed twice, concatenated, passed to a recording function and a filter, inside a loop, inside a set-capture and a filter section, twice in a row and concatenated with itself, in a loop and again after it, through ONE import statement executed three times with a computed library name, defined / imported and called inside a template entered through embed and include} (1750 cases, each compared with the reference model AND with the _self form of the same coordinates); unknown macros (call on an import alias, with and without arguments, inside a loop; from-import of an unknown name, with alias; import of a missing template) must fail; terminating recursion (linear, two inner calls, mutual; depth 0..4; defined in the template or in a library that imports itself) where every level prints its parameters again after the inner call returned; random: 2..5 macros split between the template and a library, bodies calling earlier macros of the same home (acyclic), 1..4 calls in random forms and uses. Every macro body prints each parameter and calls a recording function, so binding by position, null for missing, dropping of surplus arguments and Context.Name() (defining template) are all visible. Non-trivial: all enumerated coordinates are distinct by construction; random cases by their call list."
+	return "exhaustive: parameters 0..4 x arguments 0..6 x call form {_self.m, alias.m, from-import m, from-import m as n, from-import m under the name of a registered function} x use of the result {printed, assigned and printed twice, concatenated, passed to a recording function and a filter, inside a loop, inside a set-capture and a filter section, twice in a row and concatenated with itself, in a loop and again after it, through ONE import statement executed three times with a computed library name, defined / imported and called inside a template entered through embed and include} (1750 cases, each compared with the reference model AND with the _self form of the same coordinates; a third of the cases spelled with a line break between any two tokens, a third without any dispensable blank); unknown macros (call on an import alias, with and without arguments, inside a loop; from-import of an unknown name, with alias; import of a missing template) must fail; terminating recursion (linear, two inner calls, mutual; depth 0..4; defined in the template or in a library that imports itself) where every level prints its parameters again after the inner call returned; random: 2..5 macros split between the template and a library, bodies calling earlier macros of the same home (acyclic), 1..4 calls in random forms and uses. Every macro body prints each parameter and calls a recording function, so binding by position, null for missing, dropping of surplus arguments and Context.Name() (defining template) are all visible. Non-trivial: all enumerated coordinates are distinct by construction; random cases by their call list."
 }
 
 func (p *c11) Assumptions() []string {
-	return []string{"a macro called through an import does not refer to _self; macros are defined before the call and not in extending templates; bodies only use their parameters (all stated exclusions)"}
+	return []string{"a macro called through an import does not refer to _self; macros are defined before the call; bodies only use their parameters (all stated exclusions)"}
 }
 
 func (p *c11) Floors(tier string) map[string]int64 {
